@@ -204,6 +204,11 @@ class Run:
         os.makedirs(os.path.join(OUT, "evidence"), exist_ok=True)
         with open(os.path.join(OUT, "evidence", self.pid + ".json"), "w") as f:
             json.dump(ev, f, indent=1, sort_keys=True)
+        # a second copy per tier (the file above is rewritten by whichever tier ran last)
+        tdir = os.path.join(OUT, "evidence_by_tier", str(self.tier))
+        os.makedirs(tdir, exist_ok=True)
+        with open(os.path.join(tdir, self.pid + ".json"), "w") as f:
+            json.dump(ev, f, indent=1, sort_keys=True)
 
         for l in lines:
             print(l)
